@@ -270,6 +270,27 @@ def search(ctx, exes, n):
                            % (NAMES[k], ep[0], ep[1], res), {'kind': k, 'harness_input': k + ' ' + fmt(hl), 'replay_cmd': 'echo "<harness_input>" | %s' % exe, 'residual': res})
     ctx.extra['search'] = {'predicate_evaluations': len(lines), 'failures': nfail, 'worst_relative_residual': worst}
 
+def replay_case(ctx, path):
+    """bin/check <ID> --replay FILE: re-run one recorded case on the implementation and on the model, print both sides"""
+    import json
+    d = json.load(open(path)); hi = d.get('harness_input')
+    if not hi: print('replay file has no harness_input (it records: %s)' % d.get('what', d.get('no_longer_checks'))); return
+    ctx.build_repo(); exes = build_sides(ctx)
+    if not exes: print('could not build both sides:', ctx.broken); return
+    t = hi.split(); kind = t[0]; hl = parse_floats(' '.join(t[1:])); npre = 51 if kind in BODY_KINDS else 20; ep = hl[npre:]
+    nint = 2 if kind in ('TPS', 'TPD', 'TPC', 'LB') + tuple(MOB_KINDS) else 1 if kind in ('CF', 'CT') else 0
+    for i in range(nint): ep[i] = int(ep[i]); hl[npre + i] = int(hl[npre + i])
+    res = run_cases(ctx, exes, [(kind, hl, ep)])
+    for kind, hl, ep, di, dm, ml in res:
+        print('element', NAMES[kind], 'parameters', ep)
+        print('implementation: body forces', di.get('bf'), 'mobility forces', di['mf'], 'PE', di['pe'], 'power', di.get('P'), 'dPE/dt (central difference)', di.get('dPE'))
+        print('model         : body forces', dm['bf'], 'mobility forces', dm['mf'], 'PE', dm['pe'])
+        if kind in INTERACTION: print('third-law residual of the implementation (relative):', third_law_residual(di, kind, ep)[0])
+        print('agreement:', 'yes' if not compare(res) else 'NO - ' + compare(res)[0][1])
+
+def replay(ctx, path):
+    replay_case(ctx, path)
+
 def run(ctx):
     ctx.build_repo()
     ctx.coq_props(PROPS)
